@@ -246,6 +246,27 @@ pub fn run(ctx: &Ctx) -> Report {
             judge_src(&src, "function-reading-the-address", None, &budgets, l);
         }));
     }
+    // expressions with one part that is known at once and one that is not, behind an instruction that shrinks: a
+    // conditional with a literal arm and a label arm, a slice whose width is computed from a label
+    {
+        let head = "#ruledef\n{\n    nop => 0x00\n    jb {a} => { assert(a < 5), 0xa @ a`4 }\n    jb {a} => 0xb0 @ a`8\n    ld {x} => 0x20 @ x`8\n    pad {n}, {x} => x`(n * 8)\n}\nALT = false\nYES = true\n";
+        let alpha = ["jb far", "back:", "ld ALT ? 0 : back", "#d8 false ? 0 : far", "#d8 YES ? back : 1", "pad back, 0xee", "k2 = ALT ? 1 : far\n#d8 k2", "nop", "ld YES ? far : 0"];
+        let ka = alpha.len() as u64;
+        let maxlen = if ctx.thorough { 4 } else { 3 };
+        rep.absorb(par_run(seq_count(ka, maxlen), |i, l| {
+            let seq = seq_decode(i, ka, maxlen);
+            if seq.is_empty() || seq.iter().filter(|x| alpha[**x] == "back:").count() > 1 {
+                return;
+            }
+            let mut src = head.to_string();
+            for x in &seq {
+                src += alpha[*x];
+                src += "\n";
+            }
+            src += "far:\n#d8 0xff\n";
+            judge_src(&src, "partly-static-expression", None, &budgets, l);
+        }));
+    }
     // constants whose value comes from a file: flagged as statically known, yet not available before the first full pass
     // when they are declared after their use
     {
